@@ -14,12 +14,10 @@ def norm_impl(o):
     return o.split(" ")[0]
 
 
-def run_batch(cases, backends="vm,wasm", want_model=True, nshards=None, timeout=3600):
-    """cases: list of dict(id, src, sx, inputs, times, scheduler?, path?). Returns dict id -> (vm, wasm, model) raw strings.
+def run_batch(cases, backends="vm,wasm", want_model=True, nshards=None, want_mir=False, timeout=3600):
+    """cases: list of dict(id, src, sx, inputs, times, scheduler?, path?). Returns dict id -> [vm, wasm, model] raw strings;
     `timeout` (seconds) bounds one harness process: when it expires the first case without an answer is recorded as
-    `timeout …` (a hang) and the rest of the shard goes on in a fresh process."""
-def run_batch(cases, backends="vm,wasm", want_model=True, nshards=None, want_mir=False):
-    """cases: list of dict(id, src, sx, inputs, times, scheduler?). Returns dict id -> [vm, wasm, model] raw strings;
+    `timeout …` (a hang) and the rest of the shard goes on in a fresh process;
     with want_mir a fourth entry: the Lean MIR semantics (`drv_mir`) run on the dump of the real compiler's MIR
     (`mir` binary): `ok nout bits` | `unsupported …` | `stuck …` | `fuel` | `compile-error` | None."""
     nshards = nshards or min(NCPU, max(1, len(cases) // 20))
